@@ -12,453 +12,610 @@ Definition show_fres (r : fres) : string :=
   end.
 Definition check (rs : list rune) : string := digest (show_fres (format_res rs)).
 Definition full (rs : list rune) : string := show_fres (format_res rs).
-Eval vm_compute in ("<<<M271>>>" ++ check (runes_of_ascii "// packet A { u8 x, }
-packet string_ {
-@tag( 4294967296)
-@calculatedFrom( """ ++ [128512]%N ++ runes_of_ascii """ )@calculatedFrom( ""1"" )  leftPad @lengthOf( //	t
-int )  ``
-// `tick` ""quote"" 'q'
-//
-, repeat Packet{ zchar[
-0
-    // packet A { u8 x, }
-    ]options1 `line1
-line2` , },
-    @calculatedFrom( """"	) float32
-    u8x
+Eval vm_compute in ("<<<M1605>>>" ++ check (runes_of_ascii "MetaData Pad 
+{
+
+char[]  Packet
     ,
-float , i64_
-{ packetx {  i16	falsey, f32 repeatCount
-    `{ , }`,} ,
-    repeat char[
-0  ] i8i8, string	o @lengthOf( options1 ) , } , i64_
-@calculatedFrom(""a\""b"" )
-/// triple
-//x
-`a\`  , @rightPad ( )@lengthOf( packetx
-    )
-match matchKey as stringy{ ""a	b"":
-body,}
-    ,
-    // " ++ [27880; 37322]%N ++ runes_of_ascii "
-    @lengthOf(
-u128
-) @calculatedFrom(
-    ""`tick`"" ) @rightPad
-    () // @lengthOf(
-repeat falsey
-string_ `" ++ [28040; 24687; 31867; 22411]%N ++ runes_of_ascii "`
-    ,string As`it's`
-    ,
-@calculatedFrom( """ ++ [28040; 24687]%N ++ runes_of_ascii """ ) repeat rootA { float64
-body	,
-} , } options {zchar
-=
-    // " ++ [128512]%N ++ runes_of_ascii " emoji
-    true  ;  i8i8= 3; } packet	leftPad{	@calculatedFrom(
-    // c
-    """" ) //x
-@leftPad( ' ' )
+    f32a i64_	`tab	here` 
+  // c
+	  // a // b
+
+,}
+	root
+	packet As{ @calculatedFrom(""CRC32"" )	@calculatedFrom(""1"")
+    @calculatedFrom(
+""// no comment""
+// a // b
+      //
+      )  As
+As
+`say ""hi""`
+,  Foo
+	msg_type,	calculatedFrom 
 @calculatedFrom(
-""abc"" ) repeat MetaDataX{  char[] Pad , body
-@lengthOf( Foo )
-/// triple
-/// triple
-,uint64 i8i8 ,char[ 42 ]options1
-@calculatedFrom( ""x y""
-),}
+""\n""  ) , zchar { zchar[
+
+    7 ]
+charz // `tick` ""quote"" 'q'
+      @calculatedFrom( ""x y""
+
+)	, Z9_ 
+`{ , }` ,
+
+repeat int{
+	zchar[
+3]
+    i8i8 @lengthOf(  chars),  match
+
+zchar
+    as 
+o
+{1
+	://
+    	u128,	0	:
+// trailing space 
+//x
+    	stringy,  42  : charz
+""x y""  :a1
+3
+
+    : 
+Header ,
+
+    4294967296 :o
+
+    } 
 ,
-} packet stringy
-    /// triple
-    {	@calculatedFrom( """ ++ [28040; 24687]%N ++ runes_of_ascii """ )BodyLength	len
-    ,@lengthOf(
-u
-    ) i8i8
-metadata
-, @calculatedFrom(
-""a\\""
-) //x
-packetx
-    ,
-    f64 i8i8	@lengthOf( Header
-    )
-    , metadata
-`
-`,@lengthOf( int ) repeat falsey	,
-repeat char[]
+
+    repeat
+    Header
+`two words` 
+,match
+u8x
+as u8x
+{[	10
+    ]:
+
+pack
+	, 1  : 
+BodyLength
+//
+    // " ++ [27880; 37322]%N ++ runes_of_ascii "
+    0
+: MetaDataX
+
+, 42: 
+calculatedFrom
+} ,
+} 	 /// triple
+    	,
+}	,	// " ++ [27880; 37322]%N ++ runes_of_ascii "
+} 
+
+    // `tick` ""quote"" 'q'
+
+	/// triple
+  packet i64_
+{}
+    root	packet x
+{ Header {
+
+    char[/// triple
+	0
+
+    ]
+_x	`// not a comment`	,
+    } ,  @lengthOf(
+A )	uint32
+
+f32a@calculatedFrom(  ""abc"" )  
+      // `tick` ""quote"" 'q'
+  // " ++ [27880; 37322]%N ++ runes_of_ascii "
+    	,
+    repeat
+
+i16 
 trueish
+
+`u8 x,`
+	,  @rightPad
+	(
+' ' 
+) @calculatedFrom(
+	""a\\""
+) float
+,repeat	char[7	]	zchar	, @tag(  10 )
+	repeat  
+  //	t
+  	a1
+
+    falsey
+	`say ""hi""` , @lengthOf( len
+) repeat
+	zchar[ 
+00
+    // `tick` ""quote"" 'q'
+  ]
+uint8x,
+}MetaData
+metadata	{ u8 
+body
+,	}
+")).
+Eval vm_compute in ("<<<M1791>>>" ++ check (runes_of_ascii "root
+	packet// @lengthOf(
+    repeatCount	{
+	@lengthOf( u8x)@calculatedFrom(
+    ""1"")
+    @tag(
+007) 
+repeat
+
+    zchar[ 
+42
+    ] Header
+
+    `" ++ [28040; 24687; 31867; 22411]%N ++ runes_of_ascii "`
+,
+match
+    options1 as
+asx {255
+	    // `tick` ""quote"" 'q'
+:
+
+roots	, } 
+,  // a // b
+    Header @lengthOf(  
+      // a // b
+  	options1	)
+
+    ``
+
+,	Header 	 //	t
+  @lengthOf( 
+len
+)`{ , }` ,o  matchKey`u8 x,`
+	, } packet packetx
+{zchar[
+    255  ]
+
+crc 
+,	}
+	packet	Logon 
+{
+	body 
+{
+	float{
+repeat Logon trueish ,
+
+    },
+    } 
+, 
+@calculatedFrom( 
+    // `tick` ""quote"" 'q'
+    ""`tick`"")repeat
+
+char[0 ] f32a
+,	match  body
+    as 
+float
+{
+	[
+65535
+
+,
+""" ++ [28040; 24687]%N ++ runes_of_ascii """ ]	:
+calculatedFrom
 ,
     }
-")).
-Eval vm_compute in ("<<<M96>>>" ++ check (runes_of_ascii "packet  int//x
-{
-// " ++ [128512]%N ++ runes_of_ascii " emoji
-//	t
-} packet Z9_ {
-    @tag(  1
-) @tag(00 ) zchar[ 0 ] trueish `// not a comment`
-, Header @lengthOf(
-repeatCount ) // `tick` ""quote"" 'q'
-,charz float`crlf
-line` , match
-lengthOf as	u
-    // c
-    { // `tick` ""quote"" 'q'
-65535  :
-    msg_type
-,""1""
-:
-    // " ++ [27880; 37322]%N ++ runes_of_ascii "
-    x
-    ,
-""a\""b"" : packetx , 10:
-msg_type """ ++ [128512]%N ++ runes_of_ascii """ :
-calculatedFrom [
-7 ,0	]
-    // c
-    : // " ++ [128512]%N ++ runes_of_ascii " emoji
-u128 , }, string i8i8`{ , }` , } packet// @lengthOf(
-a1{ } root packet roots {
-    @lengthOf(
-    // " ++ [128512]%N ++ runes_of_ascii " emoji
-    u )
-f64 Logon,@lengthOf(
-_x	) As
-    @calculatedFrom(""\n"" ) , @leftPad
-// packet A { u8 x, }
-// " ++ [27880; 37322]%N ++ runes_of_ascii "
-(  )repeatCount
-@calculatedFrom( ""{,}""
-)
-`tab	here`
-    // trailing space 
-    , @tag(
-    //x
-    42)char[
-1
-    ]T
-    `a\`
-,int64
-_x// packet A { u8 x, }
-, zchar[	4294967296
-    ]
-i64_ @lengthOf(  tag
-    //	t
+	,  u32
+	float
+    @calculatedFrom( """ ++ [233]%N ++ runes_of_ascii "t" ++ [233]%N ++ runes_of_ascii """ 	 // @lengthOf(
+
+	)	,
+string
+body
+
+    @lengthOf( 
+len
+
     )
+
     `
-`
-    , @calculatedFrom(""a\""b""
-    //x
-    ) u8 len`it's` , @leftPad
-(
-) metadata@lengthOf(tag
-    ) `{ , }` ,@leftPad// packet A { u8 x, }
-( ' '
-) MetaDataX  {
-    repeat char[]	rootA
-    ,
-    // c
-    } ,i8 body ,}
-")).
-Eval vm_compute in ("<<<M1570>>>" ++ check (runes_of_ascii "root packet repeatCount {
-    @lengthOf(u8x)
-    @calculatedFrom(""1"")
-    @tag(007)
-    repeat zchar[42] Header `" ++ [28040; 24687; 31867; 22411]%N ++ runes_of_ascii "`,
-    match options1 as asx {
-        255 : roots,
-    },// a // b
-    Header @lengthOf(options1) ``,
-    Header @lengthOf(len) `{ , }`,
-    o matchKey `u8 x,`,
-}
+` 	 //
+	,u8x
+@calculatedFrom(
+""a\""b"" ) 
 
-packet packetx {
-    zchar[255] crc,
-}
-
-packet Logon {
-    body {
-        float {
-            repeat Logon trueish,
-        },
-    },
-    @calculatedFrom(""`tick`"")
-    repeat char[0] f32a,
-    match body as float {
-        [65535, """ ++ [28040; 24687]%N ++ runes_of_ascii """] : calculatedFrom,
-    },
-    u32 float @calculatedFrom(""" ++ [233]%N ++ runes_of_ascii "t" ++ [233]%N ++ runes_of_ascii """),
-    string body @lengthOf(len) `
-        `,
-    u8x @calculatedFrom(""a\""b""),//	t
-    float64 options1 @calculatedFrom(""" ++ [128512]%N ++ runes_of_ascii """) `it's`,
-    //x
-    // trailing space 
-    match crc as chars {
-        3 : options1,
-        [10] : _x,
-        [""{,}""] : options1,
-        [7, ""CRC32"", ""a\\"", ""a\\"", ""packet""] : As,
-    },
-    i16 msg_type,
-}")).
-Eval vm_compute in ("<<<M1857>>>" ++ check (runes_of_ascii "packet pack {
-    @lengthOf(Foo)
-    asx @lengthOf(_x),
-    u8 x_y_z `two words`,
-    repeat zchar[0] roots `
-    `,
-    lengthOf @calculatedFrom(""abc""),
-    @tag(3)
-    @rightPad(' ')
-    @calculatedFrom(""1"")
-    repeat uint64 i64_ `say ""hi""`,
-    @tag(007)
-    match roots as float {
-        ""a	b"" : lengthOf,
-        [
-            1, 42, ""\n"", ""a\""b"", ""\" ++ [233]%N ++ runes_of_ascii """,
-            ""1""
-        ] : msg_type,
-        """ ++ [128512]%N ++ runes_of_ascii """ : Foo,
-    },
-    T {
-        match Header as trueish {
-            [
-                0, 3, 00, 0123456789, ""{,}"",
-                ""1"", ""// no comment""
-            ] : As,
-        },
-    },
-    repeat char[10] o `
-    `,
-    @calculatedFrom(""`tick`"")
-    repeat crc {
-        repeatCount o,
-        u8x As,
-    },
-}
-
-packet pack {
-    @calculatedFrom(""" ++ [233]%N ++ runes_of_ascii "t" ++ [233]%N ++ runes_of_ascii """)
-    u32 f32a,
-}
-
-MetaData float {
-    u32 options1,
-}
-
-packet f32a {
-}")).
-Eval vm_compute in ("<<<M1347>>>" ++ check (runes_of_ascii "options {
-    StringPrefixLenType = u16;
-    ArrayPrefixLenType = u32;
-    FixedStringPadFromLeft = true;
-    FixedStringPadChar = '0';
-}
-packet Cancel {
-}
-packet Party {
-}
-packet Logon {
-}
-packet Ack {
-}
-packet Logout {
-    repeat InSym87 {
-        InClordid94 {
-            string clOrdID,
-        },
-        string Px,
-        i16 Qty,
-        repeat InCount71 {
-            repeat Cancel,
-            uint16 Tail,
-            char[2] x,
-            repeat string Ref,
-        },
-        Cancel,
-    },
-}
-root packet Order {
-    repeat string tag7,
-    @leftPad(' ') char[3] Px,
-    u8 Qty,
-    match Qty as Body {
-        [28, 62] : Logon,
-        148 : Ack,
-        88 : Party,
-        184 : Cancel,
-    },
-    u16 Note @calculatedFrom(""CR\
-C32""),
-}
-")).
-Eval vm_compute in ("<<<M1402>>>" ++ check (runes_of_ascii "  // top
-  	options  // c0a
-		// c0b
-  {	// c1a
-    // c1b
-FixedStringPadChar  =  // c3
-'0'
-;
-	} 
-packet 
-  // c7
-Q // c8
-
-{// c9a
-
-// c9b
-
-zchar[  // c10a
-		// c10b
-
-	4 	 // c11
-]  // c12
-    	z  , 	 // c14
-	@rightPad( // c16
-
-	'\x00'
-	)	// c18a
-    // c18b
-
-  char[3	// c20a
-
-// c20b
-      ]
-    // c21
-  n
-, 
-  // c23
-    char[
-
-    // c24
-5 
-
-// c25
-    ]// c26
-
-d	// c27
-    ,
-} 	 // c29a
-      // c29b
-  root
-    // c30
-	packet	R 
-// c32
-	{  // c33
-    	Q
-
-    , // c35a
-// c35b
-
-	zchar[
-
-8 	 // c37
-] 	 // c38
-    top ,  // c40a
-  	// c40b
-    	repeat  
-  // c41
-  zchar[
-
-// c42
-2 
-    // c43
-	  ]	// c44a
-  // c44b
-    zs 
-
-// c45
-	,	// c46a
-
-	// c46b
-    	}	// c47")).
-Eval vm_compute in ("<<<M122>>>" ++ check (runes_of_ascii "
-packet u128  { // trailing space 
-string  Header `say ""hi""` , repeat crc
-f32a,
-    char[ 10
-    ] _x	,	@calculatedFrom( ""x y""	) repeat
-    //
-    charz	{
-    Logon @lengthOf(T) `crlf
-line`
-, repeat char[ // trailing space 
-0123456789 ]Z9_
-    `crlf
-line` ,
-    } ,
-    match Packet
-    as
-// " ++ [128512]%N ++ runes_of_ascii " emoji
-// `tick` ""quote"" 'q'
-float // a // b
+    //	t
+  ,	//	t
+  	float64
+    options1
+    @calculatedFrom(
+	""" ++ [128512]%N ++ runes_of_ascii """
+	)	`it's`
+	, 
+//x
+  // trailing space 
+    match	crc as
+    chars
 {
-    1
-:  lengthOf }  ,  MetaDataX , match x as
-u8x { 10 :crc } , } root packet // `tick` ""quote"" 'q'
-Header // a // b
-{ @calculatedFrom( ""{,}"") a1
-    {  char[
-    // packet A { u8 x, }
-    007 ] pack ,stringy //x
-zchar
-    , repeat
-char[]
+    3 :
+	options1// @lengthOf(
+    ,  [
+    10 ] :
+    _x	[ ""{,}""
+	]
+:options1, [
+
+""CRC32""
+,""a\\"" ,  ""a\\""
+,""packet"" , 
+7 
+    // `tick` ""quote"" 'q'
+  	] :
+As
+
+} , i16	msg_type
+    , }
+")).
+Eval vm_compute in ("<<<M1817>>>" ++ check (runes_of_ascii "
+packet calculatedFrom {	// a // b
+		string	charz `two words`
+//	t
+	//x
+
+	, }
+packet
+
+    stringy
+{ @lengthOf(	msg_type
+) crc 
     // " ++ [128512]%N ++ runes_of_ascii " emoji
-    o `it's`	, } , }")).
-Eval vm_compute in ("<<<M1591>>>" ++ check (runes_of_ascii "options {
-    LittleEndian = false;
-    ArrayPrefixLenType = u8;
-    FixedStringPadFromLeft = true;
-    FixedStringPadChar = '0';
+  ,	@leftPad
+
+(
+'0'  )
+crc
+
+    @lengthOf(
+	u128 //	t
+      ) , 
+@leftPad
+
+(' ')	match
+x_y_z as rootA{[	// @lengthOf(
+	3
+	,
+	255 ]
+	:
+    int""1""  :
+	o 
+,  // a // b
+		10 :
+tag ,	// c
+    10	// " ++ [128512]%N ++ runes_of_ascii " emoji
+  : Header ,
+    3: 
+a1
+
+, """ ++ [128512]%N ++ runes_of_ascii """
+
+: 
+packetx	, 
+} 
+      // packet A { u8 x, }
+  	// packet A { u8 x, }
+	, match 
+// " ++ [27880; 37322]%N ++ runes_of_ascii "
+  // a // b
+  	o	as	x	//x
+
+{""a	b""
+    :u8x
+    ,
+	} ,
+@rightPad (
+)repeat
+u	packetx,
+    T  // " ++ [27880; 37322]%N ++ runes_of_ascii "
+	, repeat 
+Logon , T
+    { repeat
+
+    x_y_z
+	,  // a // b
+
+i8
+crc`two words` ,
+
+    char[]
+
+calculatedFrom@calculatedFrom( ""x y""  )
+,
+}, roots  calculatedFrom
+	,@lengthOf(  asx
+    )  repeat
+    x_y_z  {
+T matchKey 
+,  }  , }	options 
+{float= 
+char[1	]
+;
+msg_type	// c
+
+= i8
+
+    x
+
+= 
+//
+	// `tick` ""quote"" 'q'
+  zchar[ 7
+
+    ]
+; f32a
+
+=  ""\n""	}
+")).
+Eval vm_compute in ("<<<M379>>>" ++ check (runes_of_ascii "root
+    packet i64_ { trueish ,
+@calculatedFrom(""abc"") @tag( 7 )
+    // c
+    int16
+    asx
+, @calculatedFrom( ""a\\"" ) float32 crc
+@lengthOf(
+Foo ) ,	@tag( // `tick` ""quote"" 'q'
+42 // c
+) zchar[
+// c
+// packet A { u8 x, }
+7 ] asx @lengthOf( calculatedFrom) `// not a comment` , //
+repeat zchar[ 1]// a // b
+As ,	chars `two words` , @calculatedFrom( ""1"" )
+@tag(
+    // `tick` ""quote"" 'q'
+    0123456789 ) @leftPad ('0')
+    repeat
+    char[] BodyLength `tab	here`, } MetaData u128 // packet A { u8 x, }
+{
+u16 i64_
+,
+    float32 asx//
+`two words` ,//
+i64
+leftPad, zchar[ 00 // `tick` ""quote"" 'q'
+] _x
+    , //
+} MetaData chars
+    //
+    {Foo crc
+`say ""hi""` , uint8 u`two words` , // " ++ [128512]%N ++ runes_of_ascii " emoji
+f32
+pack
+`crlf
+line`, string _x `" ++ [233]%N ++ runes_of_ascii "`  , } packet x_y_z{ } options { calculatedFrom = ""CRC32"" crc
+    = uint16 ; u =
+false
+    Foo
+=
+    char  } // " ++ [128512]%N ++ runes_of_ascii " emoji")).
+Eval vm_compute in ("<<<M1733>>>" ++ check (runes_of_ascii "root packet leftPad {
+    @calculatedFrom(""" ++ [128512]%N ++ runes_of_ascii """)
+    int64 len `{ , }`,
 }
 
-packet Heartbeat {
-    string lastPx,
-    uint8 Qty,
-    i64 Acct,
-    char[4] Ref,
-}
-
-packet Fill {
-    uint8 Ref,
-    Heartbeat,
-    f32 OrderId,
-    repeat f32 x,
-}
-
-root packet Order {
-    zchar[2] OrderId,
-    zchar[2] Acct,
-    zchar[1] Note,
-    zchar[9] Qty,
-    string price,
-    string tag7,
-    u32 x,
-    match x as Body {
-        123 : Fill,
-        112 : Heartbeat,
+packet u128 {
+    zchar[65535] chars @calculatedFrom(""\" ++ [233]%N ++ runes_of_ascii """),
+    @lengthOf(int)
+    i64_,
+    crc {
+        match Z9_ as Logon {
+            10 : int,
+            [0] : u8x,
+            // trailing space 
+            //x
+            42 : trueish,
+            [""\" ++ [233]%N ++ runes_of_ascii """, 4294967296] : Z9_,
+            ""\n"" : u128,
+        },
+        repeat string_ uint8x,
+        i8i8,
+        match u as body {
+            4294967296 : Z9_,
+            10 : Z9_,
+            [""" ++ [128512]%N ++ runes_of_ascii """, ""x y""] : pack,
+        },
     },
-    u32 seqNo @calculatedFrom(""CRC32""),
-}")).
-Eval vm_compute in ("<<<M1337>>>" ++ check (runes_of_ascii "options {
+    @tag(0123456789)
+    @lengthOf(calculatedFrom)
+    @leftPad('\x00')
+    zchar[3] T,
+    match A as leftPad {
+        [""" ++ [28040; 24687]%N ++ runes_of_ascii """] : i64_,
+        ""// no comment"" : string_,
+    },
+}// trailing space ")).
+Eval vm_compute in ("<<<M1617>>>" ++ check (runes_of_ascii "  // top
+packet  // c0a
+  	// c0b
+
+  Sub// c1
+    	{ 
+	// c2
+u8	// c3a
+    // c3b
+  	a
+    // c4
+		, // c5
+    @calculatedFrom( ""CRC16""
+)
+
+// c8
+    i32  // c9
+
+	SubSum  
+      // c10
+  ,
+}  // c12
+	  root
+packet // c14a
+	// c14b
+	Frame 	 // c15
+      { 
+    // c16
+  u16 
+
+    // c17
+	MsgType// c18a
+    // c18b
+		,	// c19
+u16 	 // c20a
+  // c20b
+  BodyLen // c21a
+	// c21b
+  @lengthOf( Body
+	)
+    ,	// c25a
+      // c25b
+    Sub
+
+// c26
+
+Body // c27
+  , 
+
+    // c28
+
+	string 	 // c29a
+  	// c29b
+  	note	// c30a
+	// c30b
+
+,
+	    // c31
+		@calculatedFrom(// c32
+  ""CRC16"" )i32
+
+Checksum 	 // c36a
+    // c36b
+    , // c37a
+  	// c37b
+	u8// c38
+  tail
+,
+}  
+  // c41
+")).
+Eval vm_compute in ("<<<M1635>>>" ++ check (runes_of_ascii "root packet u8x {
+    char i64_,
+    repeat char[1] Z9_,
+    @tag(42)
+    repeat Logon MetaDataX,
+    @leftPad()
+    Foo @lengthOf(As),
+    match u128 as calculatedFrom {
+        // " ++ [128512]%N ++ runes_of_ascii " emoji
+        4294967296 : BodyLength,
+        3 : A,
+        //
+        [4294967296, ""packet""] : o,
+        65535 : roots,
+    },
+    repeat Pad {
+        uint64 x @calculatedFrom(""" ++ [128512]%N ++ runes_of_ascii """),
+        a1 @lengthOf(As) `line1
+                line2`,
+        repeat string_ {
+            repeat uint32 _x,
+            f32 MetaDataX `it's`,
+            u64 As @lengthOf(crc),
+        },
+        roots,
+    },
+    zchar[00] u128,
+}
+//	t")).
+Eval vm_compute in ("<<<M1915>>>" ++ check (runes_of_ascii "
+root
+	    // " ++ [27880; 37322]%N ++ runes_of_ascii "
+  // @lengthOf(
+    packet Packet{ string  o@calculatedFrom(
+""\" ++ [233]%N ++ runes_of_ascii """
+	) , @lengthOf(
+
+    Packet
+        // packet A { u8 x, }
+)
+
+    body
+@calculatedFrom( 	 // @lengthOf(
+	  ""x y""
+)
+
+    `it's`
+, float64
+	As
+@calculatedFrom(  ""`tick`""
+	)	,
+    char[]
+
+    stringy @calculatedFrom( """ ++ [28040; 24687]%N ++ runes_of_ascii """  ) `doc`	,
+
+    @calculatedFrom( ""a	b""
+    )  match
+float as
+o 
+{ [""" ++ [128512]%N ++ runes_of_ascii """
+,
+	007
+	]
+
+    :
+metadata
+
+,}
+,
+
+f32a
+    a1  `a\`
+
+    , 
+}MetaData
+    repeatCount
+	{packetx
+	i64_`" ++ [28040; 24687; 31867; 22411]%N ++ runes_of_ascii "` ,  // " ++ [128512]%N ++ runes_of_ascii " emoji
+    zchar[
+
+3]
+tag
+
+    ,
+i8i8
+
+int , 
+}
+")).
+Eval vm_compute in ("<<<M1433>>>" ++ check (runes_of_ascii "options {
     ArrayPrefixLenType = u64;
     FixedStringPadFromLeft = true;
     FixedStringPadChar = '0';
 }
+
 packet Quote {
 }
+
 packet Ack {
     repeat InNote66 {
         u8 pad0,
     },
 }
+
 packet Reject {
 }
+
 root packet Order {
     Quote,
     repeat Reject,
@@ -473,169 +630,153 @@ root packet Order {
         22 : Ack,
     },
     u16 Flags @calculatedFrom(""CRC32""),
+}")).
+Eval vm_compute in ("<<<M1430>>>" ++ check (runes_of_ascii "options {
+    LittleEndian = true;
+    StringPrefixLenType = u64;
+    ArrayPrefixLenType = u16;
+    FixedStringPadFromLeft = false;
+    FixedStringPadChar = ' ';
 }
-")).
-Eval vm_compute in ("<<<M1297>>>" ++ check (runes_of_ascii "packet A { // c2a
-  // c2b
-u8
-    // c3
-a ,
-    // c5
-} // c6a
-  // c6b
-packet B // c8
-{ // c9
-u16
-    // c10
-b // c11
-, // c12
-} // c13a
-  // c13b
-root // c14a
-  // c14b
-packet // c15a
-  // c15b
-P
-    // c16
-{ u8 // c18a
-  // c18b
-K // c19
-, match // c21
-K // c22a
-  // c22b
-as // c23
-M // c24
-{ // c25a
-  // c25b
-1 : // c27a
-  // c27b
-A // c28a
-  // c28b
-,
-    // c29
-1
-    // c30
-: B
-    // c32
-,
-    // c33
-} // c34a
-  // c34b
-,
-    // c35
-} ")).
-Eval vm_compute in ("<<<M1271>>>" ++ check (runes_of_ascii "options { // c1a
-  // c1b
-LittleEndian
-    // c2
-= // c3
-true // c4
-; } // c6a
-  // c6b
-packet B { u8 // c10a
-  // c10b
-a
-    // c11
-, // c12a
-  // c12b
-string // c13
-s // c14
-, } // c16
-root // c17a
-  // c17b
-packet
-    // c18
-P // c19
-{ u16 // c21
-L @lengthOf( B ) // c25a
-  // c25b
-, // c26a
-  // c26b
-B // c27a
-  // c27b
-,
-    // c28
-u8
-    // c29
-t // c30
-, // c31
-} // c32a
-  // c32b
-")).
-Eval vm_compute in ("<<<M236>>>" ++ check (runes_of_ascii "packet metadata{ //	t
-float64	body
-    @lengthOf( calculatedFrom ) , // a // b
-@tag(42
-    ) rootA ,
-    x_y_z u8x`// not a comment`
-    ,  @lengthOf(Pad)  match // " ++ [27880; 37322]%N ++ runes_of_ascii "
-packetx  as leftPad
-    {
-    //
-    65535 : tag ,
-""" ++ [128512]%N ++ runes_of_ascii """ :_x} , x_y_z  metadata , @tag(7 )int64 zchar @lengthOf(
-repeatCount ) `" ++ [233]%N ++ runes_of_ascii "`,@tag( 0123456789 ) repeat float chars ,	f32  MetaDataX
-,}")).
-Eval vm_compute in ("<<<M240>>>" ++ check (runes_of_ascii "
-packet BodyLength { repeatCount // packet A { u8 x, }
-`// not a comment`
-,
-@lengthOf( lengthOf	)  @tag( 65535
-    )@rightPad (
-// @lengthOf(
-//	t
-'0' )/// triple
-u8 Logon , } packet chars { o msg_type , @tag( 10)zchar[ 65535
-] f32a
-,repeat char[]
-i64_
+
+packet Logon {
+    zchar[5] Side2,
+}
+
+root packet Logout {
+    repeat i64 Tail,
+    Logon,
+    repeat i16 OrderId,
+    char[] venue,
+    uint64 x,
+    repeat i16 count,
+    u8 Flags,
+    match Flags as Body {
+        25 : Logon,
+    },
+    u16 Qty @calculatedFrom(""CR\
+        C32""),
+}")).
+Eval vm_compute in ("<<<M126>>>" ++ check (runes_of_ascii "
+packet T// c
+{ @tag(  00 )repeat char[]	charz
 `
-` ,} root packet f32a { @tag( 255 )repeat u8 stringy, }
-")).
-Eval vm_compute in ("<<<M35>>>" ++ check (runes_of_ascii "  packet Header
-{ @calculatedFrom( // a // b
-""a	b"" )
-char[
-    255] falsey `tab	here`,int8
-    // " ++ [27880; 37322]%N ++ runes_of_ascii "
-    u
-`doc` , float32 lengthOf
-    @calculatedFrom(
-""a	b""  )
-    // a // b
-    , @rightPad (
-' '  ) @tag( 3
-) float64 asx
-    ,
-int8 metadata @lengthOf(zchar )// a // b
-,Pad f32a , }")).
-Eval vm_compute in ("<<<M1291>>>" ++ check (runes_of_ascii "// top
-root
-    // c0
-packet
-    // c1
-P // c2a
-  // c2b
-{ // c3
-u8 // c4
-s_u8 // c5a
-  // c5b
-, // c6
-repeat u8 // c8a
-  // c8b
-r_u8 // c9a
-  // c9b
+` , char[0123456789 ]BodyLength
+    @lengthOf( //x
+Z9_
+    )
+    `u8 x,`
 ,
-    // c10
-u16 // c11a
-  // c11b
-b_len // c12a
-  // c12b
-, // c13a
-  // c13b
-} // c14a
-  // c14b
+}	MetaData
+crc {
+float64
+int `" ++ [28040; 24687; 31867; 22411]%N ++ runes_of_ascii "`// a // b
+,	As Logon `` , // `tick` ""quote"" 'q'
+uint8 // " ++ [27880; 37322]%N ++ runes_of_ascii "
+u
+, u32  stringy `
+`,
+// a // b
+//	t
+uint64 uint8x , asx
+calculatedFrom	,//x
+} MetaData chars { char[ 1
+    // `tick` ""quote"" 'q'
+    ] //	t
+chars ,
+    } // trailing space ")).
+Eval vm_compute in ("<<<M75>>>" ++ check (runes_of_ascii "packet zchar { @calculatedFrom( ""`tick`""
+) uint32
+    falsey,} MetaData packetx {
+string
+//
+// @lengthOf(
+msg_type `u8 x,`, }packet i8i8 {zchar@lengthOf(
+uint8x
+    ) ,
+    }packet As{ zchar[ 4294967296
+    // " ++ [27880; 37322]%N ++ runes_of_ascii "
+    ] T	@calculatedFrom( ""abc"" ) , @tag(007 )
+    repeat
+    i16
+// " ++ [27880; 37322]%N ++ runes_of_ascii "
+// packet A { u8 x, }
+u8x `say ""hi""`, @lengthOf( u )
+repeat uint16 u128 , }")).
+Eval vm_compute in ("<<<M1766>>>" ++ check (runes_of_ascii "options {
+    u = 7
+    // " ++ [27880; 37322]%N ++ runes_of_ascii "
+    roots = zchar[65535]
+    msg_type = """ ++ [233]%N ++ runes_of_ascii "t" ++ [233]%N ++ runes_of_ascii """;
+    x = false
+}
+
+MetaData string_ {
+    char[42] i8i8 `" ++ [28040; 24687; 31867; 22411]%N ++ runes_of_ascii "`,
+    u8 x_y_z,
+    packetx lengthOf ``,
+    T Header `line1
+        line2`,
+    char[] u8x `two words`,
+}
+
+packet float {
+    calculatedFrom,
+    @rightPad('0')
+    char[3] u128,
+}")).
+Eval vm_compute in ("<<<M1138>>>" ++ check (runes_of_ascii "// top
+MetaData // c0
+leftPad // c1
+{ // c2
+chars // c3
+MetaDataX // c4
+, // c5
+} // c6
+packet // c7
+repeatCount // c8
+{ // c9
+char[ // c10
+255 // c11
+] // c12
+uint8x // c13
+`" ++ [233]%N ++ runes_of_ascii "` // c14
+, // c15
+} // c16
+MetaData // c17
+pack // c18
+{ // c19
+As // c20
+Foo // c21
+, // c22
+} // c23
 ")).
+Eval vm_compute in ("<<<M254>>>" ++ check (runes_of_ascii "packet  zchar
+{ zchar[ 42
+//
+//
+]uint8x ,
+    match
+    A as
+As{
+    0: int
+    ,
+}
+, @tag(7 ) @calculatedFrom(
+""packet"" ) match
+i64_
+as metadata //	t
+{
+    ""CRC32"" :
+A , }
+,
+    // c
+    }	root
+packet
+uint8x {
+    char[ 00 ]	crc
+,// " ++ [128512]%N ++ runes_of_ascii " emoji
+} 	 ")).
 Eval vm_compute in ("<<<M82>>>" ++ check (runes_of_ascii "packet metadata
 {int32 calculatedFrom , } options {} options { u128 = '\x00'	;
     string_ =	""abc""
@@ -646,67 +787,44 @@ packet i8i8
     tag@lengthOf( falsey ) ,
 } ,//x
 }")).
-Eval vm_compute in ("<<<M1709>>>" ++ check (runes_of_ascii "// top
-options {
-    // c1
-    f32a = 0// c4
-}// c5
-
-packet trueish {
-}// c9
-
-MetaData _x {
-    char[0123456789] zchar,
-    string crc,
-    char[1] options1,
-    uint8 repeatCount,
-}// c29")).
-Eval vm_compute in ("<<<M1195>>>" ++ check (runes_of_ascii "// top
-packet
-    // c0
-body
-    // c1
-{
-    // c2
-i32
-    // c3
-f32a
-    // c4
-`{ , }`
-    // c5
-,
-    // c6
-}
-    // c7
-options
-    // c8
-{
-    // c9
-}
-    // c10
-")).
-Eval vm_compute in ("<<<M501>>>" ++ check (runes_of_ascii "packet uint8x
+Eval vm_compute in ("<<<M311>>>" ++ check (runes_of_ascii "MetaData
+falsey { Header falsey
+`
+` , string Foo `" ++ [28040; 24687; 31867; 22411]%N ++ runes_of_ascii "`
+    // `tick` ""quote"" 'q'
+    ,falsey repeatCount , i8
+u , }
+packet A	{ match _x as T { 007: lengthOf// `tick` ""quote"" 'q'
+}, } 	 ")).
+Eval vm_compute in ("<<<M1809>>>" ++ check (runes_of_ascii "packet A {
+    match k as n {
+        [
+            ""a"", 22, ""c c"", 4, ""e"",
+            66, ""g"", 8, ""i"", 10,
+            ""k"", 12
+        ] : B,
+        2 : C,
+    },
+}")).
+Eval vm_compute in ("<<<M461>>>" ++ check (runes_of_ascii "packet uint8x
 { match pack
     as msg_type	{
     0123456789 :	float
 }
 ,
-} packet //	t
+} packet packet //	t
 a1
-    { } options {packetx
-    = '\x00' '\x00'	; u128= ""a	b""  ; }
-")).
-Eval vm_compute in ("<<<M552>>>" ++ check (runes_of_ascii "packet uint8x
-{ match pack
-    as msg_type	{
-    0123456789 :	float
-}
-,
-} packet //	t
-na" ++ [239]%N ++ runes_of_ascii "ve
     { } options {packetx
     = '\x00'	; u128= ""a	b""  ; }
 ")).
+Eval vm_compute in ("<<<M651>>>" ++ check (runes_of_ascii "// @lengthOf(
+packet i8i8 { u128 o , }
+options { MetaDataX MetaDataX = true;
+    BodyLength =""packet"" x_y_z= 007
+crc //x
+= ""abc"" ;
+    msg_type =
+i16 }")).
 Eval vm_compute in ("<<<M538>>>" ++ check (runes_of_ascii "packet uint8x
 { match pack
     as msg_type	{
@@ -718,7 +836,7 @@ a1
     { } options {packetx
     = '\x00'	%; u128= ""a	b""  ; }
 ")).
-Eval vm_compute in ("<<<M477>>>" ++ check (runes_of_ascii "packet uint8x
+Eval vm_compute in ("<<<M487>>>" ++ check (runes_of_ascii "packet uint8x
 { match pack
     as msg_type	{
     0123456789 :	float
@@ -726,39 +844,33 @@ Eval vm_compute in ("<<<M477>>>" ++ check (runes_of_ascii "packet uint8x
 ,
 } packet //	t
 a1
-    { options } {packetx
+    { } options packetx{
     = '\x00'	; u128= ""a	b""  ; }
 ")).
-Eval vm_compute in ("<<<M676>>>" ++ check (runes_of_ascii "// @lengthOf(
+Eval vm_compute in ("<<<M702>>>" ++ check (runes_of_ascii "// @lengthOf(
 packet i8i8 { u128 o , }
 options { MetaDataX = true;
-    BodyLength =""packet"" x_y_z x_y_z= 007
+    BodyLength =""packet"" x_y_z= 007
+crc //x
+= ""abc"" ""abc"" ;
+    msg_type =
+i16 }")).
+Eval vm_compute in ("<<<M661>>>" ++ check (runes_of_ascii "// @lengthOf(
+packet i8i8 { u128 o o , }
+options { MetaDataX = true;
+    BodyLength =""packet"" x_y_z= 007
 crc //x
 = ""abc"" ;
     msg_type =
 i16 }")).
-Eval vm_compute in ("<<<M520>>>" ++ check (runes_of_ascii "packet uint8x
-{ match pack
-    as msg_type	{
-    0123456789 :	float
-}
-,
-} packet //	t
-a1
-    { } options {packetx
-    = '\x00'	; u128=   ; }
-")).
-Eval vm_compute in ("<<<M490>>>" ++ check (runes_of_ascii "packet uint8x
-{ match pack
-    as msg_type	{
-    0123456789 :	float
-}
-,
-} packet //	t
-a1
-    { } options {
-    = '\x00'	; u128= ""a	b""  ; }
-")).
+Eval vm_compute in ("<<<M648>>>" ++ check (runes_of_ascii "// @lengthOf(
+packet i8i8 { u128 o , }
+options { = MetaDataX true;
+    BodyLength =""packet"" x_y_z= 007
+crc //x
+= ""abc"" ;
+    msg_type =
+i16 }")).
 Eval vm_compute in ("<<<M1260>>>" ++ check (runes_of_ascii "
 
   packet
@@ -785,216 +897,224 @@ K
     1  :  B
 	,  },
     } ")).
-Eval vm_compute in ("<<<M1298>>>" ++ check (runes_of_ascii "packet
-A
-{ 
-u8 a,
-}
-
+Eval vm_compute in ("<<<M1665>>>" ++ check (runes_of_ascii "root packet MetaDataX {
+    repeat u8x len `" ++ [28040; 24687; 31867; 22411]%N ++ runes_of_ascii "`,
+    As {
+        u8x,
+    },
+    int f32a `" ++ [233]%N ++ runes_of_ascii "`,
+    @lengthOf(float)
+    Z9_ `a\`,
+}")).
+Eval vm_compute in ("<<<M1784>>>" ++ check (runes_of_ascii "packet A {
+    Inner {
+        u8 x `tab
+        	x`,
+        Deep {
+            u8 y `tab
+            	x`,
+        },
+    },
+}")).
+Eval vm_compute in ("<<<M171>>>" ++ check (runes_of_ascii "options { Pad=	'\x00' ; u
+= false  repeatCount
+    = false ;// trailing space 
+T
+=// a // b
+""CRC32"" ;
+    a1 = ""it's""}
+")).
+Eval vm_compute in ("<<<M1166>>>" ++ check (runes_of_ascii "MetaData leftPad { chars MetaDataX , } packet repeatCount { char[ 255
+// c
+] uint8x `" ++ [233]%N ++ runes_of_ascii "` , } MetaData pack { As Foo , }")).
+Eval vm_compute in ("<<<M1437>>>" ++ check (runes_of_ascii "packet A {
+    Inner {
+        u8 x `
+        `,
+        Deep {
+            u8 y `
+            `,
+        },
+    },
+}")).
+Eval vm_compute in ("<<<M1592>>>" ++ check (runes_of_ascii "
 packet
-    B {
-
-u16  b
-,} 
-root	packet	P
-{ u8
-K
-
-,
-
-    match	K
-
-as M	{1
-    :
-A,
-
-1	: 
-B 
-, }
-,
-
-    }
-
-")).
-Eval vm_compute in ("<<<M1851>>>" ++ check (runes_of_ascii "
-packet  A{ 
-match k
-
-as
-    n
+A
 	{
-    ""\
-"":  B , [ ""\
-""  ,
-1 
-]	:
-C
+	match  k
+    as
+	n{  [
+    1
+    ,
+22 
+,
 
-    , [ 
-1
-
-,  2 ,	3	, 
-4, 
-5  ,""\
-"" ]	:  D  ,	} ,}
-
+    007,
+    4	, 5
+    ] :B ,
+    2
+:C
+}  ,
+	}
 ")).
-Eval vm_compute in ("<<<M1146>>>" ++ check (runes_of_ascii "MetaData leftPad
-// c
-{ chars MetaDataX , } packet repeatCount { char[ 255 ] uint8x `" ++ [233]%N ++ runes_of_ascii "` , } MetaData pack { As Foo , }")).
-Eval vm_compute in ("<<<M1178>>>" ++ check (runes_of_ascii "MetaData leftPad { chars MetaDataX , } packet repeatCount { char[ 255 ] uint8x `" ++ [233]%N ++ runes_of_ascii "` , } MetaData
-// c
-pack { As Foo , }")).
-Eval vm_compute in ("<<<M1619>>>" ++ check (runes_of_ascii "MetaData msg_type {
-}
-
-root packet A {
-    repeat i32 leftPad `it's`,
-}
-
-root packet a1 {
-    char[255] falsey,
-}")).
-Eval vm_compute in ("<<<M881>>>" ++ check (runes_of_ascii "packet A {
-  match k as n {
-    [""a"", ""bb"", ""c c"", ""d"", ""e"", ""f"", ""g"", ""h"", ""i"", ""j""] : B
-    2 : C
-  },
-}")).
-Eval vm_compute in ("<<<M683>>>" ++ check (runes_of_ascii "// @lengthOf(
-packet i8i8 { u128 o , }
-options { MetaDataX = true;
-    BodyLength =""packet"" x_y_z= 007")).
-Eval vm_compute in ("<<<M899>>>" ++ check (runes_of_ascii "packet A {
-  match k as n {
-    [1, 22, ""c c"", 4, 5, ""f"", 7, 8, ""i"", 10, 11] : B,
-    2 : C
-  },
-}")).
-Eval vm_compute in ("<<<M119>>>" ++ check (runes_of_ascii "packet u{ @tag(10 // a // b
-) tag  @lengthOf( A
-// " ++ [128512]%N ++ runes_of_ascii " emoji
-// a // b
-) , repeat options1 ,  }")).
-Eval vm_compute in ("<<<M613>>>" ++ check (runes_of_ascii "
+Eval vm_compute in ("<<<M352>>>" ++ check (runes_of_ascii "packet _x {
+} // trailing space 
+options
+    { repeatCount
+    =42 //x
+;Pad = true;
+x_y_z =
+65535 ;}
+")).
+Eval vm_compute in ("<<<M620>>>" ++ check (runes_of_ascii "
 packet
     asx {match u128 as lengthOf
 {
 //	t
 // `tick` ""quote"" 'q'
 255 : x ,
-    } } ,	}")).
-Eval vm_compute in ("<<<M594>>>" ++ check (runes_of_ascii "
+    } @lengthOf(	}")).
+Eval vm_compute in ("<<<M1474>>>" ++ check (runes_of_ascii "
+
+  packet	metadata
+
+{u32 	 // `tick` ""quote"" 'q'
+
+  Packet	`say ""hi""`, 
+
+// trailing space 
+} ")).
+Eval vm_compute in ("<<<M560>>>" ++ check (runes_of_ascii "
 packet
+    false {match u128 as lengthOf
+{
+//	t
+// `tick` ""quote"" 'q'
+255 : x ,
+    } ,	}")).
+Eval vm_compute in ("<<<M69>>>" ++ check (runes_of_ascii "//
+packet metadata
+{ }	MetaData chars
+//x
+//	t
+{
+    char[ 42	] leftPad `crlf
+line`  ,
+}")).
+Eval vm_compute in ("<<<M879>>>" ++ check (runes_of_ascii "packet A {
+  match k as n {
+    [1, 22, 007, 4, 5, 66, 7, 8, 9, 10] : B
+    2 : C
+  },
+}")).
+Eval vm_compute in ("<<<M556>>>" ++ check (runes_of_ascii "
+,
     asx {match u128 as lengthOf
 {
 //	t
 // `tick` ""quote"" 'q'
-: 255 x ,
+255 : x ,
     } ,	}")).
-Eval vm_compute in ("<<<M828>>>" ++ check (runes_of_ascii "packet A {
-  match k as n {
-    [""a"", ""bb"", ""c c"", ""d"", ""e"", ""f""] : B,
-    2 : C
-  },
-}")).
-Eval vm_compute in ("<<<M866>>>" ++ check (runes_of_ascii "packet A {
-  match k as n {
-    [1, 22, 007, 4, 5, 66, 7, 8, 9] : B
-    2 : C
-  },
-}")).
-Eval vm_compute in ("<<<M823>>>" ++ check (runes_of_ascii "packet A {
-  match k as n {
-    [""a"", ""bb"", 007, ""d"", ""e""] : B,
-    2 : C
-  },
-}")).
-Eval vm_compute in ("<<<M826>>>" ++ check (runes_of_ascii "packet A {
-  match k as n {
-    [1, 22, 007, 4, 5, 66] : B,
-    2 : C
-  },
-}")).
-Eval vm_compute in ("<<<M1658>>>" ++ check (runes_of_ascii "  packet	A
+Eval vm_compute in ("<<<M1292>>>" ++ check (runes_of_ascii "
 
-{ }
-packet B
+  root
+    packet
 
-    { 
-} MetaData
-M
-{
+P
 
-    }options {
-
-}
+    {
+	u8
+	s_u8,  repeat  u8 r_u8  , u16
+    b_len, }
 
 ")).
+Eval vm_compute in ("<<<M803>>>" ++ check (runes_of_ascii "packet A {
+  match k as n {
+    [""a"", ""bb"", ""c c"", ""d""] : B
+    2 : C
+  },
+}")).
+Eval vm_compute in ("<<<M807>>>" ++ check (runes_of_ascii "packet A {
+  match k as n {
+    [""a"", 22, ""c c"", 4] : B
+    2 : C
+  },
+}")).
 Eval vm_compute in ("<<<M449>>>" ++ check (runes_of_ascii "packet uint8x
 { match pack
     as msg_type	{
     0123456789 :	float")).
-Eval vm_compute in ("<<<M1101>>>" ++ check (runes_of_ascii "// top
-MetaData
-    // c0
-tag
-    // c1
-{
-    // c2
+Eval vm_compute in ("<<<M246>>>" ++ check (runes_of_ascii "MetaData x {x Packet
+,i32 lengthOf
+, // `tick` ""quote"" 'q'
 }
-    // c3
 ")).
-Eval vm_compute in ("<<<M954>>>" ++ check (runes_of_ascii "packet A {
-    B b `
-x`,
-    B `
-x`,
-    repeat B bs `
-x`,
-}")).
-Eval vm_compute in ("<<<M1070>>>" ++ check (runes_of_ascii "packet A { match k as n { 1 : B // a // b 2 : C }, }")).
-Eval vm_compute in ("<<<M1212>>>" ++ check (runes_of_ascii "packet body { i32 f32a `{ , }` ,
-// c
+Eval vm_compute in ("<<<M1255>>>" ++ check (runes_of_ascii "root packet P {
+    hdr {
+        u8 a,
+    },
+    u8 x,
+}
+")).
+Eval vm_compute in ("<<<M1952>>>" ++ check (runes_of_ascii "root
+
+packet P
+    {repeat
+char
+	cs
+    ,
+u8
+x 
+,  }
+
+")).
+Eval vm_compute in ("<<<M1211>>>" ++ check (runes_of_ascii "packet body { i32 f32a `{ , }` , // c
 } options { }")).
-Eval vm_compute in ("<<<M1286>>>" ++ check (runes_of_ascii "
-
-  root
-    packet P{ 
-string
-	s
-
-    , }
-")).
-Eval vm_compute in ("<<<M940>>>" ++ check (runes_of_ascii "root packet A {
-    u8 x `a
+Eval vm_compute in ("<<<M1563>>>" ++ check (runes_of_ascii "
+root
+	packet
+A
+{ u8 x `a
     b
-  c`,
-}")).
-Eval vm_compute in ("<<<M1068>>>" ++ check (runes_of_ascii "options { a = 1 // c b = 2; // d}")).
-Eval vm_compute in ("<<<M1595>>>" ++ check (runes_of_ascii "packet A {
-    u8 x `d" ++ [8192]%N ++ runes_of_ascii "`,// c" ++ [8192]%N ++ runes_of_ascii "
-}")).
-Eval vm_compute in ("<<<M1058>>>" ++ check (runes_of_ascii "packet A {
- u8 x `d" ++ [6158]%N ++ runes_of_ascii "`, // c" ++ [6158]%N ++ runes_of_ascii "
-}")).
-Eval vm_compute in ("<<<M1576>>>" ++ check (runes_of_ascii "  packet	A  { }
-
-// c 
- 
+  c` ,
+    }
 ")).
-Eval vm_compute in ("<<<M51>>>" ++ check (runes_of_ascii "options {} // " ++ [128512]%N ++ runes_of_ascii " emoji")).
-Eval vm_compute in ("<<<M1042>>>" ++ check (runes_of_ascii "// c 	
+Eval vm_compute in ("<<<M1095>>>" ++ check (runes_of_ascii "packet A { char[ // a
+ 3 // b
+ ] // c
+ x, }")).
+Eval vm_compute in ("<<<M1742>>>" ++ check (runes_of_ascii "root packet A {
+    u8 x `a
+    b`,
+}")).
+Eval vm_compute in ("<<<M1489>>>" ++ check (runes_of_ascii "// `tick` ""quote"" 'q'
+options {
+}")).
+Eval vm_compute in ("<<<M983>>>" ++ check (runes_of_ascii "packet A {
+ u8 x `d" ++ [12288]%N ++ runes_of_ascii "`, // c" ++ [12288]%N ++ runes_of_ascii "
+}")).
+Eval vm_compute in ("<<<M917>>>" ++ check (runes_of_ascii "packet A {
+    u8 x `a
+b`,
+}")).
+Eval vm_compute in ("<<<M1388>>>" ++ check (runes_of_ascii "
+// c
+    packet x{ 
+}")).
+Eval vm_compute in ("<<<M1631>>>" ++ check (runes_of_ascii "packet Packet
+
+{
+}
+
+")).
+Eval vm_compute in ("<<<M278>>>" ++ check (runes_of_ascii "packet Packet { }
+")).
+Eval vm_compute in ("<<<M1052>>>" ++ check (runes_of_ascii "// c" ++ [65279]%N ++ runes_of_ascii "
 packet A {
 }")).
-Eval vm_compute in ("<<<M1012>>>" ++ check (runes_of_ascii "// c" ++ [8232]%N ++ runes_of_ascii "
-packet A {
+Eval vm_compute in ("<<<M1224>>>" ++ check (runes_of_ascii "// c
+packet x { }")).
+Eval vm_compute in ("<<<M1932>>>" ++ check (runes_of_ascii "MetaData A {
 }")).
-Eval vm_compute in ("<<<M979>>>" ++ check (runes_of_ascii "packet A {
-}// c" ++ [12288]%N)).
-Eval vm_compute in ("<<<M378>>>" ++ check (runes_of_ascii "// @lengthOf(
-
-")).
-Eval vm_compute in ("<<<M561>>>" ++ check (runes_of_ascii "
-packet")).
-Eval vm_compute in ("<<<M765>>>" ++ check (runes_of_ascii "/" ++ [65533; 65533; 65533]%N)).
+Eval vm_compute in ("<<<M975>>>" ++ check (runes_of_ascii "// c ")).
+Eval vm_compute in ("<<<M737>>>" ++ check ([1875; 65533]%N)).
